@@ -72,10 +72,12 @@ def judge(run, pid, results, also=()):
     return totals
 
 
-def rules_trace(run, pid, args, label, also=()):
+def rules_trace(run, pid, args, label, also=(), shards=None):
     h = vcommon.build_harness()
     d = trace_dir(pid + "-" + label)
-    summ = vcommon.run_harness(h, ["rules", "--out", d, "--shards", vcommon.NCPU, "--seed", vcommon.seed()] + args)
+    # trace files are kept small (TLC loads a whole file): the thorough tier uses many more shards than workers
+    nsh = shards or (vcommon.NCPU if run.tier == "quick" else vcommon.NCPU * 12)
+    summ = vcommon.run_harness(h, ["rules", "--out", d, "--shards", nsh, "--seed", vcommon.seed()] + args)
     files = sorted(glob.glob(os.path.join(d, "rules*.ndjson")))
     # one sample event for the evidence
     for f in files:
